@@ -5,7 +5,7 @@
    re-extracted from capellambse/loader/exs.py on every run. *)
 From Coq Require Import ZArith NArith List Bool Permutation Sorted Lia.
 Import ListNotations.
-From V Require Import Model.Val Model.XmlTree Gen.ExsConsts Model.SerExs Model.XmlRead Proofs.SerExsP Proofs.XmlReadP.
+From V Require Import Model.Val Model.XmlTree Gen.ExsConsts Model.SerExs Model.XmlRead Proofs.SerExsP Proofs.XmlReadP Proofs.SerTextP.
 Open Scope N_scope.
 
 (* ---- 1. escaping -------------------------------------------------------------------------- *)
@@ -130,9 +130,17 @@ Qed.
 (* ---- 4. canonicality ---------------------------------------------------------------------- *)
 (* Full statement (design 4/C01.4): for every well-formed document d and line length ll,
      read (ser ll d) = Some (norm d)   and hence   ser ll (norm d) = ser ll d.
-   Proved part (stage A): attribute-only trees — no character data, no tails — which is every
-   semantic Capella element except bodies/languages.  Text, tails and the comments around the
-   root are NOT covered by the proof; they are covered by the differential checks only. *)
+   Proved:
+     stage A  attribute-only trees, reader [read_elem]  (4a, 4b below);
+     stage B  (4c-4h below) reader [read_doc]/[read_elem_t]: trees whose elements are attribute-only
+              with element children, or childless with text (bodies / languages: any string — multi-line,
+              every escapable character, "]]>", whitespace-only when the writer writes it), blank
+              text/tails where the writer drops them, and the comments before and after the root.
+   NOT proved (covered by the differential checks only): mixed content — non-blank text in an
+   element that has children, non-blank tails (the writer uses the parent's tail after each child,
+   and joins the lines of a tail without separator) —, non-blank text after the root or after a
+   top-level comment (not well-formed XML), comments whose content has '>' / newline / "--" (refuted
+   below: the writer is not faithful on them), UTF-8 encoding/decoding of the payload. *)
 Theorem ser_read_roundtrip_partial : forall cfg ll root ind pos r rest,
   stageA r ->
   read_elem (fst (lay_elem cfg ll root ind pos r) ++ rest) = Some (decode_tree r, rest).
@@ -156,3 +164,147 @@ Proof.
   constructor; [|constructor]. split; [split; [discriminate | repeat constructor]|].
   split; [cbn; intuition discriminate | vm_compute; discriminate].
 Qed.
+
+(* ---- 4c-4h: stage B ------------------------------------------------------------------------ *)
+(* 4c. character data: for EVERY non-empty string t, what _serialize_text(multiline=True) writes (lines
+       split at "\n", each escaped with P_ESCAPE_TEXT and "]]>" rewritten, joined by LINESEP) contains no
+       '<' and decodes back to exactly t — under both settings of the "]]>" repair *)
+Theorem text_roundtrip : forall cfg t pos, t <> [] ->
+  let w := fst (ser_text cfg TEXT_CLASS true (Some t) pos) in
+  ~ In LT w /\ unescape w = Some t.
+Proof. exact ser_text_roundtrip. Qed.
+Print Assumptions text_roundtrip.
+(* every escapable character, a "]]>", three lines *)
+Example text_roundtrip_example :
+  let t := [97; 34; 38; 60; 62; 39; 93; 93; 62; 9; 10; 13; 127; 0; 31; 10; 32; 98] in
+  let w := fst (ser_text CFG TEXT_CLASS true (Some t) 7) in
+  w = [97; 38;113;117;111;116;59; 38;97;109;112;59; 38;108;116;59; 62; 39; 93;93;38;103;116;59; 38;35;120;57;59; 10;
+       38;35;120;68;59; 38;35;120;55;70;59; 38;35;120;48;59; 38;35;120;49;70;59; 10; 32; 98]
+  /\ unescape w = Some t.
+Proof. vm_compute. split; reflexivity. Qed.
+
+(* 4d. elements.  Restriction [stageB cfg r] (Proofs/SerTextP.v): every element has a non-empty name of
+       name characters, attribute values without raw double quote that decode, a blank (unwritten) tail, and
+       EITHER children and blank (unwritten) text OR no children and any text the configuration
+       writes (leaf_text_ok: always, once whitespace-only leaf text is written; non-blank otherwise).
+       [norm_tree] (Model/XmlRead.v): attribute values decoded, leaf text kept verbatim, unwritten
+       text/tails dropped, expanded = "written as <t></t>". *)
+Theorem ser_read_text_roundtrip_partial : forall cfg ll root ind pos r rest,
+  stageB cfg r ->
+  read_elem_t (fst (lay_elem cfg ll root ind pos r) ++ rest) = Some (norm_tree r, rest).
+Proof. intros. now apply SerTextP.read_lay_elem_t. Qed.
+Print Assumptions ser_read_text_roundtrip_partial.
+
+(* stage B contains stage A, where the two readers and the two normal forms coincide *)
+Theorem stageB_extends_stageA : forall cfg r, stageA r -> stageB cfg r /\ norm_tree r = decode_tree r.
+Proof. intros cfg r H. split; [now apply stageA_stageB | now apply norm_tree_stageA]. Qed.
+Print Assumptions stageB_extends_stageA.
+Theorem readers_agree_on_stageA : forall cfg ll root ind pos r rest, stageA r ->
+  read_elem_t (fst (lay_elem cfg ll root ind pos r) ++ rest) = read_elem (fst (lay_elem cfg ll root ind pos r) ++ rest).
+Proof. exact SerTextP.readers_agree_stageA. Qed.
+Print Assumptions readers_agree_on_stageA.
+
+(* the hypothesis is decidable, and holds of every leaf text under the configuration of the source
+   under check when that writes whitespace-only leaf text, of non-blank text under either *)
+Theorem stageB_decidable : forall cfg r, stageBb cfg r = true -> stageB cfg r.
+Proof. exact stageBb_ok. Qed.
+Theorem leaf_text_always_ok : forall cfg tx, fix_blank_leaf cfg = true -> leaf_text_ok cfg tx = true.
+Proof. exact leaf_text_ok_fixed. Qed.
+Theorem leaf_text_nonblank_ok : forall cfg s, py_nonblank s = true -> leaf_text_ok cfg (Some s) = true.
+Proof. exact leaf_text_ok_nonblank. Qed.
+
+(* root a with id = 1&amp; and blank text (dropped) and a blank tail; children:
+     bodies with text  a QUOT & < > ]]> TAB LF CR DEL SP LF b ;  l with text of two blanks ;
+     e with empty text (written expanded) ;  c (written as an empty-element tag) *)
+Definition exB_body : relem :=
+  RElem [98;111;100;105;101;115] [] true (Some [97;34;38;60;62;93;93;62;9;10;13;127;32;10;98]) [] None.
+Definition exB_root : relem :=
+  RElem [97] [([105;100], [49;38;97;109;112;59])] false (Some [10;32])
+        [exB_body; RElem [108] [([120], [])] false (Some [32;32]) [] None; RElem [101] [] false (Some []) [] None;
+         RElem [99] [] false None [] None] (Some [32]).
+Example stageB_satisfiable : stageB CFG exB_root /\ stageB (SCfg false false) exB_body.
+Proof. split; apply stageBb_ok; vm_compute; reflexivity. Qed.
+Example stageB_example_reads :
+  read_elem_t (fst (lay_elem CFG 80 true 0 0 exB_root)) = Some (norm_tree exB_root, [])
+  /\ norm_tree exB_root =
+     RElem [97] [([105;100], [49;38])] false None
+       [RElem [98;111;100;105;101;115] [] false (Some [97;34;38;60;62;93;93;62;9;10;13;127;32;10;98]) [] None;
+        RElem [108] [([120], [])] false (Some [32;32]) [] None; RElem [101] [] true None [] None;
+        RElem [99] [] false None [] None] None.
+Proof. vm_compute. split; reflexivity. Qed.
+
+(* 4e. documents: comments before/after the root.  Restrictions: [stageB] for the root (whose tail is
+       then blank: text after the root element is not XML); every comment satisfies [comment_ok]:
+       comment_text_ok (decidable: no '>', no newline, no "--", no trailing '-') and a blank tail;
+       the root tag does not begin with '!' (no XML name does; the reference reader would take
+       "<!--" for a comment). *)
+Theorem ser_read_doc_roundtrip_partial : forall cfg ll before root after,
+  stageB cfg root -> tag_not_bang root -> Forall comment_ok before -> Forall comment_ok after ->
+  read_doc (lay_doc cfg ll before root after) = Some (map c_text before, norm_tree root, map c_text after).
+Proof. exact SerTextP.read_lay_doc. Qed.
+Print Assumptions ser_read_doc_roundtrip_partial.
+
+(* 4f. … and through phase 1 and the XML declaration: what exs.write emits (before UTF-8 encoding)
+       for a document whose resolved root is a stage B tree *)
+Theorem write_read_doc_partial : forall cfg ll d r,
+  resolve [] (d_root d) = ROk r -> stageB cfg r -> tag_not_bang r ->
+  Forall comment_ok (d_before d) -> Forall comment_ok (d_after d) ->
+  exists s, ser_doc cfg ll d = ROk s
+    /\ read_file (declaration ++ s) = Some (map c_text (d_before d), norm_tree r, map c_text (d_after d)).
+Proof. exact SerTextP.ser_doc_read. Qed.
+Print Assumptions write_read_doc_partial.
+
+(* 4g. canonicality for stage B documents: writing what was read gives the same bytes again *)
+Theorem ser_text_canonical_partial : forall cfg r, stageB cfg r -> canonical_values r ->
+  forall ll root ind pos, lay_elem cfg ll root ind pos (reescape (norm_tree r)) = lay_elem cfg ll root ind pos r.
+Proof. exact SerTextP.reescape_norm. Qed.
+Print Assumptions ser_text_canonical_partial.
+Theorem ser_doc_canonical_partial : forall cfg ll before root after,
+  stageB cfg root -> tag_not_bang root -> canonical_values root -> Forall comment_ok before -> Forall comment_ok after ->
+  exists b r a, read_doc (lay_doc cfg ll before root after) = Some (b, r, a)
+    /\ lay_doc cfg ll (map mk_comment b) (reescape r) (map mk_comment a) = lay_doc cfg ll before root after.
+Proof. exact SerTextP.doc_write_read_write. Qed.
+Print Assumptions ser_doc_canonical_partial.
+
+Definition exB_before : list comment := [Comment [32;104;105;45;32] None; Comment [] (Some [10])].
+Definition exB_after : list comment := [Comment [38;97;109;112;59;60] None].
+Example doc_hypotheses_satisfiable :
+  stageB CFG exB_root /\ tag_not_bang exB_root /\ canonical_values exB_root
+  /\ Forall comment_ok exB_before /\ Forall comment_ok exB_after.
+Proof.
+  split; [apply stageBb_ok; vm_compute; reflexivity|].
+  split; [apply tag_not_bangb_ok; vm_compute; reflexivity|].
+  split; [apply canonical_valuesb_ok; vm_compute; reflexivity|].
+  split; apply comment_okb_ok; vm_compute; reflexivity.
+Qed.
+Example doc_example_reads :
+  read_doc (lay_doc CFG 80 exB_before exB_root exB_after)
+  = Some ([[32;104;105;45;32]; []], norm_tree exB_root, [[38;97;109;112;59;60]]).
+Proof. vm_compute. reflexivity. Qed.
+
+(* 4h. the restrictions on comments are needed — the writer is NOT faithful outside them:
+       '>' is written as "&gt;", which XML does not decode inside a comment … *)
+Example comment_gt_refuted :
+  comment_text_ok [97; 62] = false /\
+  read_doc (lay_doc CFG 80 [Comment [97; 62] None] exB_root []) = Some ([[97; 38; 103; 116; 59]], norm_tree exB_root, []).
+Proof. vm_compute. split; reflexivity. Qed.
+(* … the lines of a multi-line comment are joined without the newline … *)
+Example comment_newline_refuted :
+  comment_text_ok [97; 10; 98] = false /\
+  read_doc (lay_doc CFG 80 [Comment [97; 10; 98] None] exB_root []) = Some ([[97; 98]], norm_tree exB_root, []).
+Proof. vm_compute. split; reflexivity. Qed.
+(* … "--" inside and '-' at the end of a comment are written as they are: not well-formed XML … *)
+Example comment_dashes_refuted :
+  comment_text_ok [97; 45; 45; 98] = false /\ comment_text_ok [97; 45] = false /\
+  read_doc (lay_doc CFG 80 [Comment [97; 45; 45; 98] None] exB_root []) = None /\
+  read_doc (lay_doc CFG 80 [] exB_root [Comment [97; 45] None]) = None.
+Proof. vm_compute. repeat split; reflexivity. Qed.
+(* … and a non-blank comment tail is written as character data outside the root element *)
+Example comment_tail_refuted :
+  read_doc (lay_doc CFG 80 [Comment [97] (Some [120])] exB_root []) = None.
+Proof. vm_compute. reflexivity. Qed.
+(* the side condition on the root tag is about the reference reader only *)
+Example tag_bang_refuted :
+  let r := RElem [33; 45; 45] [] false None [] None in
+  stageB CFG r /\ read_doc (lay_doc CFG 80 [] r []) = None.
+Proof. split; [apply stageBb_ok; vm_compute; reflexivity | vm_compute; reflexivity]. Qed.
